@@ -70,6 +70,10 @@ ASSUMPTIONS = [
     "live timing options are compared only for live manifests; DRM/event specific options only when that DRM "
     "system / event type is selected (property: options that influence media generation)",
     "fixture stream 'tears' has no encrypted files: no DRM selection is generated for it",
+    "opt_e2e's predicted query string takes the texts of start, depth and the translated verr/aerr/terr/vcorrupt "
+    "from the actual URL (their values are checked by the oracle against MPD@availabilityStartTime, "
+    "MPD@timeShiftBufferDepth and an independent time-to-segment translation); every other key, the order, the "
+    "escaping and the absence of all other options are predicted by the model",
 ]
 
 
@@ -160,6 +164,15 @@ def _unit_failure(rng, n_per_option):
             v = L.gen_value(row["kspec"], rng)
             f = c07_unit.roundtrip_failure(opt, row, v)
             if f:
+                while isinstance(v, list) and len(v) > 1:        # shrink list values
+                    for k in range(len(v)):
+                        w = v[:k] + v[k + 1:]
+                        g = c07_unit.roundtrip_failure(opt, row, w)
+                        if g:
+                            v, f = w, g
+                            break
+                    else:
+                        break
                 return {"unit": row["cgi"], "kind": row["kspec"], "value": L.spec_of_value(row["kspec"], v), **f}
     return None
 
